@@ -614,13 +614,33 @@ func (p *Prog) mayBeNil(v ssa.Value, seen map[ssa.Value]bool) bool {
 		case "errors.New", "fmt.Errorf":
 			return false
 		}
-		// module functions whose every return is non-nil (error constructors)
+		// module functions whose every return is non-nil (error constructors) or hands
+		// back one of their own parameters (shared.Fail(err): exits when err != nil):
+		// the result may be nil only if that argument may be nil at the call site
 		if f := x.Common().StaticCallee(); f != nil && f.Blocks != nil && len(seen) < 12 {
 			if ei := errResultIndex(f.Signature); ei == 0 && f.Signature.Results().Len() == 1 {
 				all := true
 				for _, r := range returnsOf(f) {
-					if p.mayBeNil(retVal(r, 0), seen) {
-						all = false
+					for _, lf := range phiLeaves(retVal(r, 0), nil, map[*ssa.Phi]bool{}) {
+						if par, ok := lf.V.(*ssa.Parameter); ok {
+							idx := -1
+							for i, pp := range f.Params {
+								if pp == par {
+									idx = i
+								}
+							}
+							if idx >= 0 && idx < len(x.Call.Args) {
+								arg := x.Call.Args[idx]
+								if !p.mayBeNil(arg, seen) || p.knownNonNilAt(x.Parent(), arg, x.Block()) {
+									continue
+								}
+							}
+							all = false
+							continue
+						}
+						if p.mayBeNil(lf.V, seen) {
+							all = false
+						}
 					}
 				}
 				if all {
